@@ -203,6 +203,8 @@ def gen_params(ctx):
         double, nta, fix = matrix[k % len(matrix)]
         force = {"noise": 0.002, "nmatch": 0, "nta": nta, "nx": int(rng.integers(14, 19)), "nt": int(rng.integers(2, 4)) if nta == 2 else int(rng.integers(1, 3)), "var_mode": "float"}
         p = calib.random_params(rng, double, quick=True, **force)
+        if nta == 2:
+            p["ta_reversed"] = bool((k // 2) % 2 == 1)   # every other two-splice row lists the splices downstream-first
         if fix:
             p["fix"], p["fix_var"] = fix, 1e-8
         if k < 4:
